@@ -35,7 +35,7 @@ pub fn errs(e: &ErrorMessages) -> Value {
     json!({ "errors": v })
 }
 
-fn options(req: &Value) -> Result<Options, Value> {
+pub fn options(req: &Value) -> Result<Options, Value> {
     let mut o = Options::default()
         .no_format()
         .no_signature()
